@@ -11,6 +11,7 @@ H == INSTANCE HtmlSkip WITH Deviations <- {}, toks <- <<>>, cdata <- "", h <- [s
 
 AlphaQ1 == H!AlphaQ1
 AlphaQ2 == H!AlphaQ2
+AlphaQ3 == H!AlphaQ3
 AlphaT  == H!AlphaT
 AlphaT2 == H!AlphaT2
 
